@@ -101,6 +101,9 @@ func run(c *core.Ctx) error {
 		return nil
 	}
 	for _, sc := range scenarios(c) {
+		if err := r.Calibrate(sc); err != nil {
+			return err
+		}
 		bhs, res := sc.Run(c, true, false, 8)
 		if res == nil {
 			return nil
@@ -172,6 +175,9 @@ func randomTraces(c *core.Ctx, r *jrun.Runner) error {
 		n = 300
 	}
 	for _, sc := range scs {
+		if err := r.Calibrate(sc); err != nil {
+			return err
+		}
 		rng := rand.New(rand.NewSource(c.Seed*7919 + 12))
 		r.Rand = rng
 		var traces [][]lakeh.GateStep
